@@ -71,6 +71,11 @@ def role_conflict(slot: str, value: ast.AST) -> str | None:
     return None
 
 
+def ancestors_(n):
+    from ..astutil import ancestors
+    return list(ancestors(n))
+
+
 def run(ctx):
     prog = ctx.prog
     om = prog.module(OAG)
@@ -396,5 +401,27 @@ def run(ctx):
     ok = bool(dc) and norm(dc[0].args[-1]) == 'e.distance * STATUTE_MILES_TO_KM'
     ctx.ob('C13-R7', add, 'stated distance converted from statute miles to km', ok,
            'e.distance * STATUTE_MILES_TO_KM' if ok else 'stated distance is compared in the wrong unit')
+    # ---- R8: every airport the shipped data names is known to the importer ------------------------------------
+    # (a row is skipped as "unknown airport" only when the data really lack that code: the reader admits every row
+    # that carries an IATA code — the historical airports of the patch file are records of type `closed`)
+    am = prog.module('utils/airports.py')
+    rf = am.func('AirportsData._read_file')
+    comps = [x for x in ast.walk(rf.node) if isinstance(x, (ast.DictComp, ast.ListComp, ast.GeneratorExp))
+             and any(norm(g.iter) == 'reader' for g in x.generators)]
+    loops = [x for x in ast.walk(rf.node) if isinstance(x, ast.For) and norm(x.iter) == 'reader']
+    ctx.floor('C13-R8', len(comps) + len(loops), 1, 'row loops in AirportsData._read_file')
+    for x in comps:
+        ifs = [norm(i) for g in x.generators for i in g.ifs]
+        ok = ifs == ["row['iata_code']"]
+        ctx.ob('C13-R8', rf, f'airport rows kept when {ifs}', ok, 'every row with an IATA code is read' if ok else
+               ('rows with an IATA code are filtered out of the airport table: schedule rows touching those airports '
+                '(the patch file\'s historical airports are of type `closed`) are dropped as "unknown airport" although the '
+                'shipped data name them'), line=x.lineno)
+    for lp in loops:
+        esc = [y for y in ast.walk(lp) if isinstance(y, ast.Continue)]
+        conds = [norm(t) for y in esc for t, pol, o in guards_of(y) if any(a is lp for a in ancestors_(o))]
+        ok = all('iata_code' in c_ and 'type' not in c_ for c_ in conds)
+        ctx.ob('C13-R8', rf, f'airport rows skipped when {conds}', ok, 'only rows without an IATA code are skipped' if ok else
+               'rows with an IATA code are skipped', line=lp.lineno)
     ctx.assumptions += ['time-zone arithmetic (zoneinfo, DST) and pandas date_range semantics are trusted',
                         'identifier names carry their role']
